@@ -35,7 +35,7 @@ TYPES = {
     "socks-h2": dict(scheme="https", proxy="socks5", http2=True, alpn=["h2"]),
 }
 CORE_TYPES = ["h1", "h1tls", "h2", "h2-1slot", "fwd", "tun", "socks"]
-SHAPES = ["get", "post3", "stream-partial"]
+SHAPES = ["get", "post3", "stream-partial", "short-body-warm"]
 
 TYPE_CLASS = {"h1": "h1", "h1tls": "h1", "h2": "h2", "h2pk": "h2", "h2-1slot": "h2", "uds": "h1", "uds-tls": "h1", "maybe-h2": "h1", "fwd": "fwd", "fwd-tls": "fwd",
               "tun": "tun", "tun-h2": "tun", "tun-tls": "tun", "socks": "socks", "socks-auth-tls": "socks",
@@ -184,6 +184,16 @@ async def victim_body(sc: Sc, shape: str, call="victim", host="o.test"):
             raise
         await api.close(cm)
         return resp.status, b"".join(chunks)[:40]
+    if shape == "short-body-warm":
+        # a kept-alive connection (one request served), then a request from a careless caller: fewer body bytes than its own
+        # Content-Length announces. That call fails (LocalProtocolError - the caller's fault); what it leaves behind is judged
+        r0 = await api.request("GET", sc.url(host), headers=hdrs, extensions=sc.ext(call))
+        try:
+            await api.request("POST", sc.url(host), headers=hdrs + [("Content-Length", "10")], content=api.body([b"12", b"345"]),
+                              extensions=sc.ext(call))
+        except httpcore.LocalProtocolError:
+            return r0.status, b"short-body-rejected"
+        return r0.status, b"short-body-accepted"
     raise ValueError(shape)
 
 
